@@ -40,7 +40,8 @@ FLOORS = {
 
 def layout_cfg(tier: str) -> S.SchemaCfg:
     return S.SchemaCfg(
-        types=S.TypeCfg(depth=2 if tier == "quick" else 3, strings=False, dyn=False, opt=False, max_arr=3),
+        types=S.TypeCfg(depth=2 if tier == "quick" else 3, strings=False, dyn=False, opt=False, max_arr=3,
+                        big_arr=(10, 11, 12, 13)),
         min_enums=0,
         max_enums=3,
         max_structs=4,
@@ -54,6 +55,14 @@ def layout_cfg(tier: str) -> S.SchemaCfg:
 def layout_case(draw, tier: str):
     s = draw(S.data_schema(layout_cfg(tier)))
     structs = [x.name for x in s.structs]
+    # now and then a sibling field spelled like an unrolled array element ("x_1" next to "x: [T, 2]")
+    for st_ in s.structs:
+        arrs = [f for f in st_.fields if isinstance(f.type, M.Arr)]
+        if arrs and draw(st.integers(0, 7)) == 0:
+            a = draw(st.sampled_from(arrs))
+            nm = f"{a.name}_{draw(st.integers(0, a.type.n - 1))}"
+            if all(f.name != nm for f in st_.fields):
+                st_.fields.append(M.Field(nm, max(f.fid for f in st_.fields) + 1, M.U(draw(st.integers(1, 8)))))
     n_impl = draw(st.integers(1, 4))
     used = set()
     for _ in range(n_impl):
@@ -109,7 +118,19 @@ def can_layout(s: M.Schema, struct_name: str, unroll: bool) -> Optional[List[ref
         return None
 
 
-def check_layout(s: M.Schema, impl: M.Impl, unroll: bool, got: List[Tuple[Any, ...]]) -> Optional[str]:
+def is_unroll_collision(s: M.Schema, ref: List[reflayout.Leaf], name: str) -> bool:
+    """Signature of finding C04-UNROLL-NAME-COLLISION: the duplicated leaf name is produced once by a declared field
+    spelled `x_i` and once by element i of a sibling array field `x` of the same struct."""
+    same = [lf for lf in ref if lf.name == name]
+    if len(same) < 2:
+        return False
+    declared = [lf for lf in same if lf.field == lf.origin]  # a declared field of exactly that name
+    unrolled = [lf for lf in same if lf.field != lf.origin]  # an element x_i of an array x
+    return bool(declared) and bool(unrolled) and all(lf.path[:-2] == declared[0].path[:-1] or lf.path[:-1][:len(declared[0].path) - 1] == declared[0].path[:-1] for lf in unrolled)
+
+
+def check_layout(s: M.Schema, impl: M.Impl, unroll: bool, got: List[Tuple[Any, ...]], known: Any = None,
+                 rec: Any = None) -> Optional[str]:
     ref = reflayout.layout(s, impl.type, unroll)
     want = [(lf.name, lf.start, lf.width, leaf_type_name(lf), lf.unit) for lf in ref]
     have = [(g[0], g[1], g[2], g[3], g[5]) for g in got]
@@ -126,7 +147,11 @@ def check_layout(s: M.Schema, impl: M.Impl, unroll: bool, got: List[Tuple[Any, .
             return f"(b) leaf {g[0]} starts at {g[1]}, expected {pos} (gap/overlap)"
         pos += g[2]
         if g[0] in names:
-            return f"(b) duplicate leaf name {g[0]}"
+            if known is not None and "C04-UNROLL-NAME-COLLISION" in known and is_unroll_collision(s, ref, g[0]):
+                if rec is not None:
+                    rec.known("C04-UNROLL-NAME-COLLISION")
+            else:
+                return f"(b) duplicate leaf name {g[0]}"
         names.add(g[0])
     if pos != reflayout.wire_width(s, M.StructRef(impl.type)):
         return f"(b) total {pos} != sum of wire widths"
@@ -157,7 +182,8 @@ def check_layout(s: M.Schema, impl: M.Impl, unroll: bool, got: List[Tuple[Any, .
     return None
 
 
-def run_history(s: M.Schema, fcp: Any, unroll0: bool, ops: List[Tuple[str, Any]], rec: Any, text: str) -> None:
+def run_history(s: M.Schema, fcp: Any, unroll0: bool, ops: List[Tuple[str, Any]], rec: Any, text: str,
+                known: Any = None) -> None:
     from fcp.encoding import PackedEncoderContext, make_encoder
 
     impls = list(fcp.impls)
@@ -213,7 +239,7 @@ def run_history(s: M.Schema, fcp: Any, unroll0: bool, ops: List[Tuple[str, Any]]
             rec.sample({"schema": text, "binding": [real.name, real.protocol], "unroll": unroll,
                         "ops_before": [list(o) for o in ops[:step]],
                         "layout": [(g[0], g[1], g[2]) for g in got]})
-        msg = check_layout(s, m, unroll, got)
+        msg = check_layout(s, m, unroll, got, known, rec)
         if msg is None and got != fresh:
             msg = f"(c) layout depends on history: {got} vs fresh encoder {fresh}"
         if msg is None:
@@ -227,6 +253,19 @@ def run_history(s: M.Schema, fcp: Any, unroll0: bool, ops: List[Tuple[str, Any]]
         n_gen += 1
 
 
+def canaries(fid: str, record: Dict[str, Any]) -> bool:
+    if fid != "C04-UNROLL-NAME-COLLISION":
+        raise HarnessError(f"unknown finding id {fid}")
+    s = M.Schema([M.Struct("S", [M.Field("speed", 0, M.Arr(M.U(8), 2)), M.Field("speed_1", 1, M.U(8))])])
+    fcp, text, err = frontend.parse_schema(s)
+    if fcp is None:
+        raise HarnessError(f"canary schema rejected: {err}")
+    from fcp.encoding import PackedEncoderContext, make_encoder
+
+    got = describe_values(make_encoder("packed", fcp, PackedEncoderContext().with_unroll_arrays(True)).generate(fcp.impls[0]))
+    return check_layout(s, M.Impl("default", "S"), True, got) is not None
+
+
 def run_shard(ctx: Ctx) -> None:
     rec = ctx.rec
 
@@ -237,7 +276,7 @@ def run_shard(ctx: Ctx) -> None:
         if fcp is None:
             rec.rejected_by_frontend += 1
             return
-        run_history(s, fcp, unroll0, ops, rec, text)
+        run_history(s, fcp, unroll0, ops, rec, text, ctx.known)
 
     hyp_run(ctx, layout_case(ctx.tier), body, ctx.n(2400, 40000))
 
@@ -250,7 +289,9 @@ def replay(case: Dict[str, Any]) -> Optional[str]:
     if fcp is None:
         raise HarnessError(f"front end rejects the replay schema: {err}")
     try:
-        run_history(s, fcp, case["unroll0"], [tuple(o) for o in case["ops"]], Recorder(), text)
+        from vlib.runner import load_known
+
+        run_history(s, fcp, case["unroll0"], [tuple(o) for o in case["ops"]], Recorder(), text, load_known("C04"))
     except Violation as v:
         return v.message
     return None
